@@ -13,6 +13,10 @@ Four case kinds (case['kind']):
            steps and plans, QueryPlan(steps) == QueryPlan(deep-copied steps) is True, equality ignores set_result(),
            every reachable Result hashes and equal Results hash equal.
   result : Result placeholders over ints / sub-step strings: hash works, a == b => hash(a) == hash(b), laws above.
+
+"prints the same" for steps, plans and TableColumns is judged on sql_image(): the str() of every tree they hold and the repr() of
+every plain value and dict key, in order; a failure is tagged with the owner attribute of the first difference (at:Class.attr) and
+the mechanism (differs:whitespace-only | numeric-type | dict-order | other).
 """
 import copy, re
 from hypothesis import strategies as st
@@ -26,7 +30,11 @@ PROPERTY = 'C18'
 RULE = ('tree cases = (dialect, accepted text, copy()|deepcopy, <= 10 drawn in-place mutations of the copy); pair cases = '
         'two accepted texts (same / one-token variant / unrelated) whose trees, sub-nodes and TableColumns are compared '
         'pairwise; plan cases = corpus statements (and one-token variants) that plan over a fixed catalog; result cases = '
-        'Result placeholders.  Texts: corpus, grammar derivations of all three dialects, qualified-star shapes.  '
+        'Result placeholders.  Texts: corpus, grammar derivations of all three dialects, qualified-star shapes.  Bounded-exhaustive '
+        'law shapes (law_cases): pairs of texts that differ only in the white space inside one quoted name / string (templates per '
+        'node class + one quoted position of every corpus statement), all pairs of CREATE TABLE column definitions, all pairs of '
+        'spellings of a plain value kept by predictor steps (1 / 1.0 / TRUE ...) and reordered conditions / parameters, names '
+        'written as quoted strings of dots at every string position, 300-400 operator chains.  '
         'non-trivial = tree case whose copy has >= 3 mutable objects and >= 1 mutation hit a nested (non-root) object; pair '
         'case with >= 4 compared objects; plan case that planned with >= 1 step; distinct by the whole case')
 ASSUMPTIONS = ['"no shared mutable" = the id() sets of library objects, lists, dicts and sets reachable from the original and from '
@@ -36,16 +44,18 @@ ASSUMPTIONS = ['"no shared mutable" = the id() sets of library objects, lists, d
 FLOORS = {'quick': {'__nontrivial__': 3000, 'kind:tree': 2000, 'kind:pair': 350, 'kind:plan': 550, 'planned': 550,
                     'mutation-steps': 12000, 'reached-nested': 2000, 'has:star-part': 500, 'pair:equal': 2000, 'pair:unequal': 14000,
                     'plan:steps>=2': 110, 'results-hashed': 1200, 'step-pairs': 1600, 'variant-planned': 90, 'mut:dict-set-new': 60,
-                    'mut:parts-item': 500, 'mut:alias': 1200, 'mut:flip-parentheses': 1500, 'mut:list-pop': 500, 'mut:set-field': 4000},
+                    'mut:parts-item': 500, 'mut:alias': 1200, 'mut:flip-parentheses': 1500, 'mut:list-pop': 500, 'mut:set-field': 4000,
+                    'relation:ws-variant': 400, 'relation:column-def': 70, 'origin:dotname': 350},
           'thorough': {'__nontrivial__': 9000, 'kind:tree': 6000, 'kind:pair': 1000, 'kind:plan': 1600, 'planned': 1600,
                        'mutation-steps': 36000, 'reached-nested': 6000, 'has:star-part': 1500, 'pair:equal': 6000, 'pair:unequal': 42000,
                        'plan:steps>=2': 330, 'results-hashed': 3600, 'step-pairs': 4800, 'variant-planned': 270, 'mut:dict-set-new': 180,
                        'mut:parts-item': 1500, 'mut:alias': 3600, 'mut:flip-parentheses': 4500, 'mut:list-pop': 1500,
-                       'mut:set-field': 12000}}
+                       'mut:set-field': 12000, 'relation:ws-variant': 1200, 'relation:column-def': 70, 'origin:dotname': 350}}
 N = {'quick': 700, 'thorough': 8000}
 
 _LEX = {}
 _SPANS = {}
+_QSPANS = {}            # the statements of _SPANS that have a name or a quoted string
 _PLANNABLE = []          # [(dialect, sql, catalog)]
 _PLAN_SPANS = {}         # (dialect, sql) -> [(type, src)]
 
@@ -66,6 +76,55 @@ STAR_SHAPES += ['select (a) from t', 'select (t.a) + 1 as x from t', 'select (a)
                 'delete from t where (a) = (1)', 'select (a) from t union select (b) from u', 'select -(a), (-a), ((a)) from t',
                 'select (a) from int1.t join mindsdb.pred', 'select (@v), (latest), (?) from t', 'select sum((a)) over (partition by (b)) from t',
                 'select (t.*) from t', 'select count((t.*)) from t']
+
+# ---- shapes for the equality law "equal => prints the same" --------------------------------------------------------
+# white space inside a quoted name {q} / string {s}: one slot per node class that carries an alias, a name or a string
+WS_TEMPLATES = ['select a + 1 as {q} from t', 'select null as {q}', 'select cast(a as int) as {q} from t', 'select {q}.f(a) from t',
+                'select case when a then 1 end as {q} from t', 'select * from int1 (raw query) as {q}', 'select * from int1 ({q})',
+                'create table t (a int default {q})', 'evaluate m from (select 1) using k = {s}', 'select (1, 2) as {q}',
+                'select ? as {q}', 'select a as {q} from t', 'select {q} from t', 'select * from {q}', 'select * from t as {q}',
+                'select {s} from t', 'select * from t where a = {s}', 'select f(a) as {q} from t', 'select * from (select 1) as {q}',
+                'select a from t order by {q}', 'select sum(a) over (partition by {q}) from t', 'select @v as {q}',
+                'select sum(a) over (order by b rows between {q} preceding and current row) from t', 'select latest as {q} from t',
+                'select not a as {q} from t', 'select a between 1 and 2 as {q} from t', 'select * from t1 join t2 as {q} on 1 = 1',
+                'insert into t (a) values ({s})', 'update t set a = {s}', 'create model m predict a using k = {s}',
+                'select * from t using k = {s}', 'select a in (1, 2) as {q} from t', 'select (select 1) as {q}', 'select t.* as {q} from t',
+                'select exists (select 1) as {q}', 'with {q} as (select 1) select 2', 'select -a as {q} from t', 'select f(a) from t as {q}',
+                'create database d with engine = {s}', 'create ml_engine e from h using k = {s}', 'select * from t where a like {s}',
+                'select interval {s} as {q}', 'show tables like {s}', 'set names {q}', 'drop table {q}', 'describe {q}', 'use {q}',
+                'create view v from int1 (select {s})', 'select a from t group by {q} having {q} = {s}', 'delete from t where a = {s}']
+WS_PLAN_TEMPLATES = ['select a + 1 as {q} from int1.t', 'select * from int1.{q}', 'select {q} from int1.t where a = {s}',
+                     'select * from int1.t join mindsdb.pred as {q}', 'select * from mindsdb.pred where a = {s}',
+                     'select * from int1.t join mindsdb.pred using k = {s}', 'select null as {q} from int1.t join int2.u',
+                     'insert into int1.t (a) select {s} as {q} from int2.u', 'select * from int1 (raw {q} query)',
+                     'create table int1.t (select a as {q} from int2.u)', 'update int1.t set a = {s} where b = 1',
+                     'delete from int1.t where a = {s}', 'select cast(a as int) as {q} from int1.t union select 1 from int2.u']
+WS_FILLS = ['x  y', 'x\ty', 'x    y']
+# column definitions of CREATE TABLE: every pair of definitions is compared as tree, TableColumn, plan step and plan
+COLUMN_DEFS = [b + n for b in ('a int', 'a int default x', 'a int primary key', 'a int (10)', 'a int (10) default x', 'a varchar', 'b int')
+               for n in ('', ' NULL', ' NOT NULL')]
+# plain values a plan step keeps outside of trees (row_dict, params): the same number as integer, float and boolean
+STEP_VALUES = ['1', '1.0', 'TRUE', "'1'", '0', '0.0', 'FALSE', "'0'", '2', 'NULL']
+STEP_VALUE_TEMPLATES = ['select * from mindsdb.pred where a = {v}', 'select * from int1.t join mindsdb.pred using a = {v}',
+                        'select * from mindsdb.pred where a = {v} and b = 2', 'select * from int1.t join mindsdb.pred using a = {v}, b = 1',
+                        'select * from mindsdb.pred where a = 3 using k = {v}']
+STEP_ORDER_PAIRS = [('select * from mindsdb.pred where a = 1 and b = 2', 'select * from mindsdb.pred where b = 2 and a = 1'),
+                    ('select * from mindsdb.pred where a = 1 and b = 1', 'select * from mindsdb.pred where b = 1 and a = 1'),
+                    ('select * from mindsdb.pred where a = 1 and b = 2 and c = 3', 'select * from mindsdb.pred where c = 3 and a = 1 and b = 2'),
+                    ('select * from int1.t join mindsdb.pred using a = 1, b = 2', 'select * from int1.t join mindsdb.pred using b = 2, a = 1'),
+                    ('select * from mindsdb.pred where a = 1 using x = 1, y = 2', 'select * from mindsdb.pred where a = 1 using y = 2, x = 1'),
+                    ("select * from mindsdb.pred where a = 'p' and b = 'q'", "select * from mindsdb.pred where b = 'q' and a = 'p'")]
+# ---- shapes for "every parser-produced tree can be copied": names written as quoted strings made of dots -----------------
+DOT_TEMPLATES = ['select a as {n} from t', 'select a {n} from t', 'select * from t1 join t2 {n} on 1 = 1', 'select * from t {n}',
+                 'select * from t as {n}', 'create knowledge_base k using storage = {n}', 'create knowledge_base k using model = {n}, storage = s',
+                 'create chatbot c using database = {n}, model = m', 'create chatbot c using database = d, model = {n}',
+                 'select f(a) as {n} from t', 'select * from (select 1) as {n}', 'select 1 as {n}', 'select {n} from t', 'select * from {n}',
+                 'select a from t order by {n}', 'create table {n} (a int)', 'insert into {n} (a) values (1)', 'drop table {n}',
+                 'create model {n} predict a', 'create database {n}', 'select {n}.a from t', 'select * from a.{n}', 'use {n}',
+                 'create skill s using type = {n}', 'create agent a using model = {n}', 'create job j (select 1) if ({n})',
+                 'create view {n} from int1 (select 1)', 'create ml_engine e from {n}', 'update t set a = 1 from (select 1) as {n}']
+DOT_NAMES = ['"."', "'.'", '`.`', '".."', "'..'", '"a."', '".a"', "'. '"]
+DEEP_CHAINS = [(300, ' and '), (300, ' + '), (400, ' or ')]
 
 CATALOGS = ('none', 'int', 'mindsdb')
 INTEGRATIONS = ['int', 'int1', 'int2', 'integration1', 'proj', 'files', 'pg', 'mysql', 'snowflake', 'chromadb', 'dummy_data', 'mariadb',
@@ -109,6 +168,7 @@ def prepare(tier):
             if spans and len(spans) <= 80 and any(y[0] in VARIANT_TOKENS for y in spans):
                 sp.append([(y[0], y[1]) for y in spans])
         _SPANS[d] = sp
+        _QSPANS[d] = [x for x in sp if any(ty in QUOTED for ty, _ in x)]
     # statements of the corpus that plan over the fixed catalog
     seen = set()
     for x in corpus.accepted():
@@ -269,32 +329,63 @@ def safe_str(x):
         return None, e
 
 
-def sql_image(x):
-    """What an object 'prints': str() of a tree; for a plan step / plan the str() of every tree it holds, in order."""
+def sql_image(x, raws=None):
+    """What an object 'prints': str() of a tree; for a plan step / plan / TableColumn the str() of every tree it holds and the
+    repr() of every plain value (dict keys included), in order.  Items are (owner Class.attribute, tag, text); `raws`
+    (optional list) receives the plain values next to their items, None for the others."""
     from mindsdb_sql.parser.ast.base import ASTNode
-    if isinstance(x, ASTNode):
-        return str(x)
     out = []
+    if raws is None:
+        raws = []
 
-    def rec(v):
+    def put(path, tag, text, raw=None):
+        out.append((path, tag, text))
+        raws.append(raw)
+
+    def rec(v, path):
         if isinstance(v, ASTNode):
-            out.append(str(v))
+            put(path, 'sql', str(v))
         elif isinstance(v, (list, tuple)):
             for i in v:
-                rec(i)
+                rec(i, path)
         elif isinstance(v, dict):
             for k in v:
-                rec(v[k])
+                put(path, 'key', repr(k))
+                rec(v[k], path)
         elif _is_node(v):
-            out.append(clsname(v))
+            put(path, 'obj', clsname(v))
             for k, val in sorted(vars(v).items()):
                 if k != 'result_data':
-                    out.append(k)
-                    rec(val)
+                    rec(val, clsname(v) + '.' + k)
         else:
-            out.append(repr(v))
-    rec(x)
+            put(path, 'val', repr(v), v)
+    rec(x, 'tree')
     return tuple(out)
+
+
+def image_diff_features(ix, rx, iy, ry):
+    """Tags that name how two printed images differ: where (owner attribute of the first difference) and the mechanism."""
+    n = min(len(ix), len(iy))
+    i = next((j for j in range(n) if ix[j] != iy[j]), n)
+    if i >= n:
+        return ['differs:length']
+    (pa, ta, xa), (pb, tb, xb) = ix[i], iy[i]
+    feats = [] if pa == 'tree' else ['at:' + pa]
+    if ta == tb == 'sql' and ' '.join(xa.split()) == ' '.join(xb.split()):
+        feats.append('differs:whitespace-only')
+    elif ta == tb == 'key' and sorted(ix) == sorted(iy):
+        feats.append('differs:dict-order')
+    elif ta == tb == 'val' and type(rx[i]) is not type(ry[i]) and isinstance(rx[i], (bool, int, float)) \
+            and isinstance(ry[i], (bool, int, float)) and rx[i] == ry[i]:
+        feats.append('differs:numeric-type')
+    else:
+        feats.append('differs:other')
+    return feats
+
+
+def no_parts_identifier(o):
+    """True when an Identifier without parts is reachable from o (a name written as a string of dots only)."""
+    return any(clsname(n) == 'Identifier' and getattr(n, 'parts', None) == [] for n, _ in mutables(o).values())
 
 
 class Laws:
@@ -356,14 +447,17 @@ class Laws:
             return None
         if v1:
             self.n_equal += 1
+            rx, ry = [], []
             try:
-                ix, iy = sql_image(x), sql_image(y)
+                ix, iy = sql_image(x, rx), sql_image(y, ry)
             except RecursionError:
                 raise
             except Exception:
                 return v1
             if ix != iy:
-                self.rec('eq-print-diff', pairsite(x, y), f'{what}{names} compare equal but print {str(ix)[:200]!r} vs {str(iy)[:200]!r}')
+                i = next((j for j in range(min(len(ix), len(iy))) if ix[j] != iy[j]), 0)
+                self.rec('eq-print-diff', pairsite(x, y), f'{what}{names} compare equal but print {str(ix[i:i + 2])[:220]!r} vs '
+                         f'{str(iy[i:i + 2])[:220]!r}', image_diff_features(ix, rx, iy, ry))
         else:
             self.n_unequal += 1
         return v1
@@ -435,9 +529,18 @@ def judge_tree(case, col):
     L = Laws(cfg, sql)
     try:
         C = T.copy() if how == 'copy' else copy.deepcopy(T)
+    except RecursionError:
+        # the tree was parsed and printed within the recursion limit (and compares, next line, else the case is dropped):
+        # only the copy needs more frames per tree level
+        T == T
+        L.rec('copy-crash', 'RecursionError@copy', f'{how} of {stmt} raises RecursionError; the tree parses, prints ({len(s0)} '
+              f'characters) and compares within the same recursion limit', ['deep-tree'])
+        col.case(('tree', d, sql, how), True, ['kind:tree', 'stmt:' + stmt, 'deep-tree-copy'])
+        return L.out
     except Exception as e:
-        L.rec('copy-crash', site_of(e), f'{how} of {stmt}: {type(e).__name__}: {e}')
-        col.case(('tree', d, sql, how), True, ['kind:tree', 'stmt:' + stmt])
+        L.rec('copy-crash', site_of(e), f'{how} of {stmt}: {type(e).__name__}: {e}',
+              ['identifier:no-parts'] if no_parts_identifier(T) else [])
+        col.case(('tree', d, sql, how), True, ['kind:tree', 'stmt:' + stmt, 'origin:' + origin])
         return L.out
     if struct(T) != st0:
         L.rec('original-changed', stmt, f'copying changed the original: {diff(st0, struct(T))}', ['by:copy'])
@@ -608,7 +711,8 @@ def judge_plan(case, col):
         try:
             c = copy.deepcopy(s)
         except Exception as e:
-            L.rec('copy-crash', site_of(e), f'deepcopy of {clsname(s)}: {type(e).__name__}: {e}')
+            L.rec('copy-crash', site_of(e), f'deepcopy of {clsname(s)}: {type(e).__name__}: {e}',
+                  ['identifier:no-parts'] if no_parts_identifier(s) else [])
             all_equal = False
             continue
         copies.append(c)
@@ -732,21 +836,61 @@ def variant_of(draw, spans):
     if ty == 'ID':
         toks[i] = draw(st.sampled_from(['zz', '`zz`', toks[i].upper(), '`' + toks[i].strip('`') + '`']))
     elif ty in ('INTEGER', 'FLOAT'):
-        toks[i] = draw(st.sampled_from(['7', '1.5', toks[i] + '0', "'" + toks[i] + "'"]))
+        toks[i] = draw(st.sampled_from(['7', '1.5', toks[i] + '0', "'" + toks[i] + "'", toks[i] + '.0' if ty == 'INTEGER' else toks[i],
+                                        {'1': 'TRUE', '0': 'FALSE', '1.0': '1', '0.0': '0'}.get(toks[i], toks[i] + '.0')]))
     else:
         toks[i] = draw(st.sampled_from(["'zz'", "'a  b'", "'a b'", toks[i].replace(' ', '  '), '"zz"']))
     return ' '.join(toks)
 
 
+QUOTED = {'ID': '`', 'QUOTE_STRING': "'", 'DQUOTE_STRING': '"'}
+
+
+def quoted_positions(spans, types=('ID', 'QUOTE_STRING', 'DQUOTE_STRING')):
+    return [i for i, (ty, _) in enumerate(spans) if ty in types]
+
+
+def ws_pair_of(spans, i, fill):
+    """Two texts that differ only in the white space inside the quoted name / string put at token i."""
+    q = QUOTED[spans[i][0]]
+    toks = [src for _, src in spans]
+    a, b = list(toks), list(toks)
+    a[i], b[i] = q + 'x y' + q, q + fill + q
+    return ' '.join(a), ' '.join(b)
+
+
+def dot_name_of(spans, i, name='.'):
+    toks = [src for _, src in spans]
+    q = QUOTED[spans[i][0]]
+    toks[i] = q + name + q
+    return ' '.join(toks)
+
+
+def fill_ws(t, fill):
+    return t.replace('{q}', '`' + fill + '`').replace('{s}', "'" + fill + "'")
+
+
 @st.composite
 def cases(draw):
     kind = draw(st.sampled_from(['tree', 'tree', 'tree', 'pair', 'pair', 'plan', 'plan']))
+    if kind == 'tree' and draw(st.integers(0, 9)) == 0:
+        # a quoted name / string of a corpus statement replaced by a name made of dots
+        d = draw(st.sampled_from(corpus.DIALECTS))
+        spans = draw(st.sampled_from(_QSPANS[d]))
+        i = draw(st.sampled_from(quoted_positions(spans)))
+        return {'kind': 'tree', 'dialect': d, 'sql': dot_name_of(spans, i, draw(st.sampled_from(['.', '..', '. .', 'a.']))),
+                'how': draw(st.sampled_from(['copy', 'deepcopy'])), 'muts': draw(MUT), 'origin': 'dotname'}
     if kind == 'tree':
         d, sql, src = draw(text_case())
         return {'kind': 'tree', 'dialect': d, 'sql': sql, 'how': draw(st.sampled_from(['copy', 'deepcopy'])), 'muts': draw(MUT),
                 'origin': src}
     if kind == 'pair':
-        rel = draw(st.sampled_from(['same', 'variant', 'variant', 'variant', 'unrelated', 'cross-dialect']))
+        rel = draw(st.sampled_from(['same', 'variant', 'variant', 'variant', 'unrelated', 'cross-dialect', 'ws-variant']))
+        if rel == 'ws-variant':
+            d = draw(st.sampled_from(corpus.DIALECTS))
+            spans = draw(st.sampled_from(_QSPANS[d]))
+            a, b = ws_pair_of(spans, draw(st.sampled_from(quoted_positions(spans))), draw(st.sampled_from(WS_FILLS)))
+            return {'kind': 'pair', 'relation': rel, 'a': {'dialect': d, 'sql': a}, 'b': {'dialect': d, 'sql': b}}
         if rel in ('same', 'unrelated'):
             d, sql, src = draw(text_case())
             if rel == 'same':
@@ -763,12 +907,71 @@ def cases(draw):
     d, sql, cat = draw(st.sampled_from(_PLANNABLE))
     c = {'kind': 'plan', 'dialect': d, 'sql': sql, 'catalog': cat}
     spans = _PLAN_SPANS.get((d, sql))
-    if spans and draw(st.integers(0, 3)) > 0:
+    how = draw(st.integers(0, 4))
+    if spans and how == 4 and quoted_positions(spans):
+        c['sql'], c['sql2'] = ws_pair_of(spans, draw(st.sampled_from(quoted_positions(spans))), draw(st.sampled_from(WS_FILLS)))
+    elif spans and how > 0:
         c['sql2'] = variant_of(draw, spans)
     return c
 
 
-def fixed_cases():
+def law_cases(tier='quick'):
+    """Bounded-exhaustive shapes for 'equal => prints the same' and 'every parser-produced tree can be copied'."""
+    out = []
+    muts = [[1, 2, 0], [2, 0, 1], [3, 3, 0]]
+    # white space inside quoted names / strings: templates x dialects x fills
+    for d in corpus.DIALECTS:
+        for t in WS_TEMPLATES:
+            for f in WS_FILLS[:2]:
+                out.append({'kind': 'pair', 'relation': 'ws-variant', 'a': {'dialect': d, 'sql': fill_ws(t, 'x y')},
+                            'b': {'dialect': d, 'sql': fill_ws(t, f)}})
+    for t in WS_PLAN_TEMPLATES:
+        for f in WS_FILLS[:2]:
+            for cat in ('none', 'mindsdb'):
+                out.append({'kind': 'plan', 'dialect': 'mindsdb', 'sql': fill_ws(t, 'x y'), 'sql2': fill_ws(t, f), 'catalog': cat})
+    # ... and at one (thorough: every) quoted position of every corpus statement
+    for d in corpus.DIALECTS:
+        for n, spans in enumerate(_QSPANS.get(d, [])):
+            pos = quoted_positions(spans)
+            for j, i in enumerate(pos):
+                if tier == 'thorough' or j == n % len(pos):
+                    a, b = ws_pair_of(spans, i, WS_FILLS[(n + j) % 2])
+                    out.append({'kind': 'pair', 'relation': 'ws-variant', 'a': {'dialect': d, 'sql': a}, 'b': {'dialect': d, 'sql': b}})
+    # column definitions: all unordered pairs (and each with itself)
+    for i, a in enumerate(COLUMN_DEFS):
+        for b in COLUMN_DEFS[i:]:
+            for d in ('mindsdb', 'mysql'):
+                out.append({'kind': 'pair', 'relation': 'column-def', 'a': {'dialect': d, 'sql': f'create table t ({a}, z int)'},
+                            'b': {'dialect': d, 'sql': f'create table t ({b}, z int)'}})
+            out.append({'kind': 'plan', 'dialect': 'mindsdb', 'sql': f'create table int1.t ({a})', 'sql2': f'create table int1.t ({b})',
+                        'catalog': 'none'})
+    # plain values held by predictor steps: all unordered pairs of spellings; order of conditions / parameters
+    for t in STEP_VALUE_TEMPLATES:
+        for i, a in enumerate(STEP_VALUES):
+            for b in STEP_VALUES[i + 1:]:
+                out.append({'kind': 'plan', 'dialect': 'mindsdb', 'sql': t.replace('{v}', a), 'sql2': t.replace('{v}', b),
+                            'catalog': 'mindsdb'})
+    for a, b in STEP_ORDER_PAIRS:
+        for cat in ('mindsdb', 'none'):
+            out.append({'kind': 'plan', 'dialect': 'mindsdb', 'sql': a, 'sql2': b, 'catalog': cat})
+    # names made of dots: templates x spellings x dialects, and every quoted string of every corpus statement
+    for d in corpus.DIALECTS:
+        for t in DOT_TEMPLATES:
+            for j, nm in enumerate(DOT_NAMES):
+                out.append({'kind': 'tree', 'dialect': d, 'sql': t.replace('{n}', nm), 'how': 'deepcopy' if j % 2 else 'copy',
+                            'origin': 'dotname', 'muts': muts})
+        for n, spans in enumerate(_QSPANS.get(d, [])):
+            for i in quoted_positions(spans, ('QUOTE_STRING', 'DQUOTE_STRING')):
+                out.append({'kind': 'tree', 'dialect': d, 'sql': dot_name_of(spans, i), 'how': 'deepcopy' if n % 2 else 'copy',
+                            'origin': 'dotname', 'muts': muts})
+    # left-deep operator chains that parse, print and compare within the recursion limit
+    for n, op in DEEP_CHAINS:
+        out.append({'kind': 'tree', 'dialect': 'mindsdb', 'sql': 'select * from t where ' + op.join(f'c{i} = {i}' for i in range(n)),
+                    'how': 'copy', 'origin': 'deep-chain', 'muts': muts})
+    return out
+
+
+def fixed_cases(tier='quick'):
     out = []
     for (d, sql, cat) in _PLANNABLE:
         out.append({'kind': 'plan', 'dialect': d, 'sql': sql, 'catalog': cat})
@@ -780,13 +983,14 @@ def fixed_cases():
             for how in ('copy', 'deepcopy'):
                 for muts in ([[1, 2, 0]], [[2, 0, 1], [3, 2, 0], [4, 3, 0]], [[5, 1, 2], [6, 2, 0], [7, 3, 1], [8, 0, 0]]):
                     out.append({'kind': 'tree', 'dialect': d, 'sql': s, 'how': how, 'origin': 'star', 'muts': muts})
+    out.extend(law_cases(tier))
     out.append({'kind': 'result', 'values': [0, 1, 2, 10, 0, '0_1', '1_0', '0_1']})
     out.append({'kind': 'result', 'values': [1, 1]})
     return out
 
 
 def run_shard(col, k, nshards, tier, seed):
-    for i, c in enumerate(fixed_cases()):
+    for i, c in enumerate(fixed_cases(tier)):
         if i % nshards == k:
             for rec in judge(c, col):
                 col.fail(rec, c)
@@ -806,6 +1010,10 @@ def run_shard(col, k, nshards, tier, seed):
     if k == 0:
         col.exhaustive_parts.append(f'copy + 4 fixed mutations of the tree of every {"6th " if pstep > 1 else ""}accepted '
                                     f'production-pair sentence ({n} sentences over 3 dialects)')
+        col.exhaustive_parts.append(f'equality / copy law shapes: {len(law_cases(tier))} cases (white space in quoted tokens: '
+                                    f'{len(WS_TEMPLATES)} templates x 3 dialects and the quoted positions of the corpus; all pairs of '
+                                    f'{len(COLUMN_DEFS)} column definitions; all pairs of {len(STEP_VALUES)} value spellings in '
+                                    f'{len(STEP_VALUE_TEMPLATES)} predictor shapes; {len(DOT_TEMPLATES)} x {len(DOT_NAMES)} dot-name shapes)')
         col.exhaustive_parts.append(f'copy + 4 fixed mutations of all {len(corpus.accepted())} corpus trees; equality laws over the '
                                     f'{len(_PLANNABLE)} (corpus statement, catalog) pairs that plan; qualified-star shapes')
     hyp.explore(col, cases(), judge, N[tier], seed)
